@@ -168,22 +168,89 @@ func runC16(p *Prog, r *Report) {
 	if want("C16.4") {
 		r.Begin("C16.4", "E-SIB", "partition agreement: the writer starts partition offset/(1<<baseLg), the reader probes partition offset>>baseLg; baseLg is the last byte of the filter block on both sides; the offset array position is the 4 bytes before it", 4)
 		if fn := resolveFn(p, r, "leveldb/table", "(*filterWriter).flush"); fn != nil {
-			okv := false
-			instrs(fn, func(_ *ssa.BasicBlock, _ int, in ssa.Instruction) {
-				if b, ok := in.(*ssa.BinOp); ok && b.Op == token.QUO && mParam("offset")(b.X) {
-					if sh, ok := isBin(stripConv(b.Y), token.SHL); ok && mConstInt(1)(sh.X) && isFieldLoad(sh.Y, "leveldb/table.filterWriter", "baseLg") {
-						okv = true
+			// the writer keeps generating partitions while fewer than floor(offset / 2^baseLg) exist.
+			// Two spellings of that loop condition are recognised (operands by role):
+			//   (A)  offset / (1<<baseLg)  >  len(offsets)      (also offset >> baseLg)
+			//   (B)  (len(offsets)+1) << baseLg  <=  offset     (also … * (1<<baseLg))
+			isLenOffsets := func(v ssa.Value) bool {
+				c, ok := stripConv(v).(*ssa.Call)
+				return ok && isCallTo(c, "builtin:len") && isFieldLoad(c.Call.Args[0], "leveldb/table.filterWriter", "offsets")
+			}
+			isBase := func(v ssa.Value) bool { return isFieldLoad(stripConv(v), "leveldb/table.filterWriter", "baseLg") }
+			isOffset := func(v ssa.Value) bool { return mParam("offset")(stripConv(v)) }
+			pow := func(v ssa.Value) bool { // 1 << baseLg
+				sh, ok := isBin(stripConv(v), token.SHL)
+				return ok && mConstInt(1)(sh.X) && isBase(sh.Y)
+			}
+			partIdx := func(v ssa.Value) bool { // offset / 2^b
+				v = stripConv(v)
+				if q, ok := isBin(v, token.QUO); ok && isOffset(q.X) && pow(q.Y) {
+					return true
+				}
+				if sh, ok := isBin(v, token.SHR); ok && isOffset(sh.X) && isBase(sh.Y) {
+					return true
+				}
+				return false
+			}
+			nextStart := func(v ssa.Value) bool { // (len+1) * 2^b
+				v = stripConv(v)
+				lenPlus1 := func(x ssa.Value) bool {
+					a, ok := isBin(stripConv(x), token.ADD)
+					return ok && ((isLenOffsets(a.X) && mConstInt(1)(a.Y)) || (isLenOffsets(a.Y) && mConstInt(1)(a.X)))
+				}
+				if sh, ok := isBin(v, token.SHL); ok && lenPlus1(sh.X) && isBase(sh.Y) {
+					return true
+				}
+				if m, ok := isBin(v, token.MUL); ok && ((lenPlus1(m.X) && pow(m.Y)) || (lenPlus1(m.Y) && pow(m.X))) {
+					return true
+				}
+				return false
+			}
+			verdict, detail := "", "no loop condition relating offset, baseLg and len(offsets) found"
+			for _, b := range fn.Blocks {
+				cond, neg, ok := ifCond(b)
+				if !ok {
+					continue
+				}
+				bo, isB := cond.(*ssa.BinOp)
+				if !isB || !isCmpOp(bo.Op) {
+					continue
+				}
+				op := bo.Op
+				if neg {
+					op = map[token.Token]token.Token{token.LSS: token.GEQ, token.LEQ: token.GTR, token.GTR: token.LEQ, token.GEQ: token.LSS, token.EQL: token.NEQ, token.NEQ: token.EQL}[op]
+				}
+				flip := map[token.Token]token.Token{token.LSS: token.GTR, token.LEQ: token.GEQ, token.GTR: token.LSS, token.GEQ: token.LEQ, token.EQL: token.EQL, token.NEQ: token.NEQ}
+				X, Y := bo.X, bo.Y
+				// normalise so that the "partition side" is on the left
+				switch {
+				case partIdx(Y) && isLenOffsets(X), nextStart(Y) && isOffset(X):
+					X, Y, op = Y, X, flip[op]
+				}
+				switch {
+				case partIdx(X) && isLenOffsets(Y):
+					if op == token.GTR {
+						verdict = "ok"
+					} else {
+						verdict, detail = "bad", "the loop continues while offset/2^baseLg "+op.String()+" len(offsets) (want >)"
+					}
+				case nextStart(X) && isOffset(Y):
+					if op == token.LEQ {
+						verdict = "ok"
+					} else {
+						verdict, detail = "bad", "the loop continues while (len(offsets)+1)<<baseLg "+op.String()+" offset (want <=): when a data block ends exactly on a multiple of 2^baseLg one partition too few is started and the next block's keys land in the previous filter — filtered lookups miss stored keys"
 					}
 				}
-			})
+			}
 			r.Site(1)
-			r.Check(okv, fnName(fn), "writer-partition-index", "writer partition index = offset / (1 << baseLg)", "different expression", p.Pos(fn.Pos()))
-			// generates until len(offsets) reaches the index
-			reached := cmpAtom("x>len(offsets)", token.GTR, func(v ssa.Value) bool { _, ok := stripConv(v).(*ssa.BinOp); return ok }, func(v ssa.Value) bool {
-				c, ok := v.(*ssa.Call)
-				return ok && isCallTo(c, "builtin:len") && isFieldLoad(c.Call.Args[0], "leveldb/table.filterWriter", "offsets")
-			})
-			checkGuard(p, r, GuardSpec{Rule: "one-partition-per-base", Fn: fn, Target: evCall("(*leveldb/table.filterWriter).generate"), TargetDesc: "generate() (start the next partition)", Atoms: []Atom{reached}, G: func(a []bool) bool { return a[0] }, GDesc: "partition index > partitions generated so far", MinTargets: 1})
+			r.Check(verdict == "ok", fnName(fn), "writer-partition-index", "the writer starts partitions until floor(offset / 2^baseLg) exist — offset/(1<<baseLg) > len(offsets), or (len(offsets)+1)<<baseLg <= offset", detail, p.Pos(fn.Pos()))
+			// generate() only inside that loop
+			n := 0
+			for _, c := range findCalls(fn, "(*leveldb/table.filterWriter).generate") {
+				n++
+				_ = c
+			}
+			r.Check(n == 1, fnName(fn), "one-partition-per-round", "flush starts partitions only through that loop (one generate() call site)", fmt.Sprintf("%d generate() call sites", n), p.Pos(fn.Pos()))
 		}
 		if fn := resolveFn(p, r, "leveldb/table", "(*filterBlock).contains"); fn != nil {
 			okv := false
